@@ -596,44 +596,56 @@ def check_jacobian(b, case, q0, p0):
 
 
 def check_energy_order(b, case, q0, rng):
-    """|H(end) - H(start)| at step sizes h, h/2, h/4 over the same integration time, summed over three
-    momentum draws, must shrink at second order: observed order log2(E(h)/E(h/4))/2 >= 1.5
-    (a first-order scheme gives 1, a wrong sign 0)."""
+    """|H(end) - H(start)| summed over three momentum draws, at step sizes h, h/2, h/4, ... over the same
+    integration time.  The observed orders r_k = log2(E(h/2^k) / E(h/2^(k+1))) are followed until two
+    consecutive ones agree (asymptotic regime): a second-order scheme shows 2, a scheme with a dropped or
+    mis-sized half step 1, a wrong sign 0.  'bad' needs three consecutive levels agreeing on an order <= 1.4."""
     n = case["n"]
-    L0 = min(case["L"], 6)
-    ps = [[rng.gauss(0, 1) * math.sqrt(m) for m in (case["mass"] if case["mass_kind"] == "diag"
-                                                       else [case["mass"][i][i] for i in range(n)])]
-          for _ in range(3)]
+    L0 = min(case["L"], 4)
+    maxsteps = 160 if case["kind"] == "phylo" else 640
+    diag = case["mass"] if case["mass_kind"] == "diag" else [case["mass"][i][i] for i in range(n)]
+    ps = [[rng.gauss(0, 1) * math.sqrt(m) for m in diag] for _ in range(3)]
     H0 = [hamiltonian(b, case, q0, p) for p in ps]
-
-    def E(h, L):
-        tot = 0.0
-        for p, h0 in zip(ps, H0):
-            q1, p1 = integrate(b, case, q0, p, h, L)
-            tot += abs(hamiltonian(b, case, q1, p1) - h0)
-        return tot
-
-    h = case["eps"]
+    if not all(math.isfinite(x) for x in H0):
+        return "undefined", None
     scale = max(1.0, sum(abs(x) for x in H0) / 3)
-    # find a step small enough for the asymptotic regime: relative energy error below 2 %
-    for _ in range(9):
-        e1 = E(h, L0)
-        if math.isfinite(e1) and e1 <= 0.02 * scale:
-            break
-        h /= 2
-    else:
-        return "undefined", None
-    e2, e3 = E(h / 2, 2 * L0), E(h / 4, 4 * L0)
-    if not (math.isfinite(e2) and math.isfinite(e3)):
-        return "undefined", None
-    floor = 1e-11 * scale * (4 * L0)
-    if e1 < 100 * floor:
-        return "undefined", None          # already at round-off level
-    order = math.log2(e1 / max(e3, floor)) / 2
-    if order < 1.5:
-        return "bad", (f"energy error does not shrink quadratically: |dH| = {e1:.3e}, {e2:.3e}, {e3:.3e} at "
-                       f"h = {h:.4g}, h/2, h/4 (observed order {order:.2f})")
-    return "ok", None
+    cache = {}
+
+    def E(k):
+        if k not in cache:
+            tot = 0.0
+            for p, h0 in zip(ps, H0):
+                q1, p1 = integrate(b, case, q0, p, case["eps"] / 2 ** k, L0 * 2 ** k)
+                tot += abs(hamiltonian(b, case, q1, p1) - h0)
+            cache[k] = tot
+        return cache[k]
+
+    def order(k):
+        a, c = E(k), E(k + 1)
+        if not (math.isfinite(a) and math.isfinite(c)) or a <= 0 or c <= 0:
+            return None
+        return math.log2(a / c)
+
+    k = 0
+    while L0 * 2 ** (k + 2) <= maxsteps:
+        r1, r2 = order(k), order(k + 1)
+        floor = 1e-11 * scale * L0 * 2 ** (k + 2)
+        if r1 is not None and r2 is not None:
+            if E(k + 2) < 100 * floor:
+                return "undefined", None          # round-off level reached before the orders settle
+            if abs(r1 - r2) <= 0.2:
+                r = (r1 + r2) / 2
+                if r >= 1.7:
+                    return "ok", None
+                if r <= 1.4 and L0 * 2 ** (k + 3) <= maxsteps:
+                    r3 = order(k + 2)
+                    if r3 is not None and r3 <= 1.4 and abs(r3 - r2) <= 0.2 and E(k + 3) >= 100 * floor:
+                        return "bad", ("energy error does not shrink quadratically with the step size: |dH| = "
+                                       + ", ".join(f"{E(j):.3e}" for j in range(k, k + 4))
+                                       + f" at h = {case['eps'] / 2 ** k:.4g}, h/2, h/4, h/8 over {L0 * 2 ** k} steps "
+                                       f"(observed orders {r1:.2f}, {r2:.2f}, {r3:.2f}; expected 2)")
+        k += 1
+    return "undefined", None
 
 
 def check_shadow(case, out):
